@@ -1,6 +1,7 @@
 #!/bin/bash
+VROOT="$(cd "$(dirname "${BASH_SOURCE[0]}")/.." && pwd)"
 # all_checks.sh <tier> <seed...> : runs every check, prints one line each (for development)
-cd /verif
+cd "$VROOT"
 tier="$1"; shift
 for seed in "$@"; do
   for i in $(seq -w 1 20); do
